@@ -59,6 +59,10 @@ func runC13E2E(ctx *Ctx, c e2ePath) {
 	// the property presupposes an existing destination directory for ../ and absolute paths
 	if strings.HasPrefix(out, "../") || filepath.IsAbs(out) {
 		os.MkdirAll(filepath.Dir(outAbs), 0755)
+		if filepath.IsAbs(out) {
+			// ... also as the path is spelled (x/../y needs x to exist for the operating system)
+			os.MkdirAll(out[:strings.LastIndex(out, "/")], 0755)
+		}
 	}
 	os.MkdirAll(filepath.Dir(inAbs), 0755)
 	ioutil.WriteFile(inAbs, []byte("INPUT\n"), 0644)
@@ -138,7 +142,7 @@ func checkC13(ctx *Ctx) {
 		ctx.diff(w, "c13.validpath", true, "validpath", p)
 	}
 	// end to end
-	outs := []string{"o.txt", "sub/o.txt", "new/deep/er/o.txt", "../sib/o.txt", "../../top/o.txt", "@/abs/o.txt", "a.b/c.d/o.e.f", "x_y/o-1.txt", "../l2/back.txt", "sub/../o2.txt", "./dot/o.txt", "__parent/o.txt",
+	outs := []string{"o.txt", "sub/o.txt", "new/deep/er/o.txt", "../sib/o.txt", "../../top/o.txt", "@/abs/o.txt", "@/abs/run/../results/o.txt", "@/abs/../abs2/o.txt", "a.b/c.d/o.e.f", "x_y/o-1.txt", "../l2/back.txt", "sub/../o2.txt", "./dot/o.txt", "__parent/o.txt",
 		// valid names that look like the encoding's own placeholders: the declared output must still end up at exactly that path
 		"__parent__report.txt", "__fsroot__/a/o.txt", "d/__parent__x/o.txt", "__fsroot__o.txt"}
 	ins := []string{"i.txt", "data/i.txt", "../up/i.txt", "@/absin/i.txt", "../../two/i.txt", "./.hid/i.txt", "./../up2/i.txt", "./dot/i.txt"}
